@@ -152,7 +152,42 @@ def sweep_empty_round(tier, seed):
   yield dict(alg='mime_lite')
 
 
-CHECKERS = {'masked': (check_masked, sweep_masked), 'empty_round': (check_empty_round, sweep_empty_round)}
+def check_agnostic_round(inp):
+  """One AgnosticFedAvg round: the statistics it feeds to the domain-weight update are sums over real examples,
+  so the new domain weights / window / params cannot depend on how the evaluation batches are padded."""
+  from fedjax.core import optimizers
+  rs = np.random.RandomState(inp.get('seed', 0))
+  clients = []
+  for i, n in enumerate(inp['sizes']):
+    clients.append((b'c%d' % i, cds.ClientDataset({'x': rs.randn(n, 2).astype(np.float32), 'y': rs.randn(n).astype(np.float32),
+                                                    'domain_id': rs.randint(0, 2, n).astype(np.int32)}),
+                    jax.random.PRNGKey(i)))
+  outs = []
+  for bs, buckets in inp['geometries']:
+    alg = agnostic_fed_avg.agnostic_federated_averaging(
+        pel, optimizers.sgd(0.01), optimizers.sgd(1.0),
+        cds.ShuffleRepeatBatchHParams(batch_size=2, num_epochs=1, seed=0),
+        cds.PaddedBatchHParams(batch_size=bs, num_batch_size_buckets=buckets), [0.4, 0.6], 0.5,
+        init_domain_window=[1., 1.], regularizer=reg if inp['reg'] else None)
+    st, _ = alg.apply(alg.init({'w': jnp.asarray([0.5, -0.5]), 'b': jnp.asarray(0.1)}), clients)
+    outs.append((np.asarray(st.domain_weights), np.asarray(st.domain_window[-1]), st.params))
+  for (bs, k), o in zip(inp['geometries'][1:], outs[1:]):
+    if not (np.allclose(o[0], outs[0][0], rtol=1e-4, atol=1e-6) and np.allclose(o[1], outs[0][1]) and close(o[2], outs[0][2])):
+      return (f'agnostic round (regularizer={inp["reg"]}, client sizes {inp["sizes"]}): domain weights {o[0]} with padded '
+              f'batches of {bs} / {k} buckets differ from {outs[0][0]} with {inp["geometries"][0]}: the per-domain statistics '
+              'depend on the padding geometry')
+
+
+def sweep_agnostic_round(tier, seed):
+  geo = [[1, 1], [3, 1], [8, 3], [16, 1]]
+  for r in (False, True):
+    yield dict(sizes=[7, 5, 1], geometries=geo, reg=r, seed=seed)
+    if tier != 'quick':
+      yield dict(sizes=[2, 0, 9], geometries=geo, reg=r, seed=seed + 1)
+
+
+CHECKERS = {'masked': (check_masked, sweep_masked), 'empty_round': (check_empty_round, sweep_empty_round),
+            'agnostic_round': (check_agnostic_round, sweep_agnostic_round)}
 
 if __name__ == '__main__':
   sys.exit(common.main(CHECKERS))
